@@ -13,3 +13,10 @@ def make_default(RT, PATH, K):
     def body(x, _k=K):
         return RT.call(PATH, (("x", x),)) if _k is not None else None
     return body
+
+
+def make_closure_obj(RT, K):
+    """Captures the runtime and ONE object K (which knows the body's path): two definitions differ in that object only."""
+    def body(x):
+        return RT.call(K.path, (("x", x),))
+    return body
